@@ -452,4 +452,386 @@ theorem ols_time_scale (c : Rat) (t : List Pt) (dt : Rat) (L : Int) :
       simp only [h, if_false, Except.map, if_true, sqr, Except.ok.injEq, Est.mk.injEq, and_true]
       refine ⟨by ring, by ring⟩
 
+/-! ## the automatic number of lags (`max_lag=None`) — every theorem holds for EVERY `optimal_points` function `op`
+    (the run executes `optimalPointsF`, Michalet & Berglund's formulas in doubles) -/
+
+/-- **optimal_points_cache.** `determine_optimal_points` (which recomputes the MSD curve only when more lags are needed
+    than it has cached, carries `num_intercept` / `number_computed` along and fits the first `num_slope` CACHED points)
+    returns what the plain search returns that computes the MSD curve afresh for exactly the lags it fits
+    (`optSpec`): the cache and the bookkeeping do not influence the result. -/
+theorem optimal_points_cache (op : OptPts) (t : List Pt) :
+    detOpt op t = optSpec op t 100 (max 2 (t.length / 10), max 2 (t.length / 10)) [] := by
+  unfold detOpt
+  rw [optLoop_eq_spec op t 100 _ (optInit_inv t _)]
+  rfl
+
+/-- the automatic number of lags is invariant under translating / mirroring positions and shifting frame indices. -/
+theorem optimal_points_invariant (op : OptPts) (t : List Pt) (c : Rat) (k : Int) :
+    detOpt op (translate c t) = detOpt op t ∧ detOpt op (mirror t) = detOpt op t ∧
+    detOpt op (frameShift k t) = detOpt op t := by
+  simp only [optimal_points_cache]
+  refine ⟨?_, ?_, ?_⟩
+  · rw [optSpec_congr op t (translate c t) (by simp [translate]) (msd_translate c t)]; simp [translate]
+  · rw [optSpec_congr op t (mirror t) (by simp [mirror]) (msd_mirror t)]; simp [mirror]
+  · rw [optSpec_congr op t (frameShift k t) (by simp [frameShift]) (msd_frame_shift k t)]; simp [frameShift]
+
+/-- **optimal_points_scale.** Scaling the positions by `a ≠ 0` (another pixel size, another length unit) does not change
+    the number of lags the heuristic arrives at: the localisation error `intercept / slope` and the signs it branches on
+    are scale free. -/
+theorem optimal_points_scale (op : OptPts) (a : Rat) (ha : a ≠ 0) (t : List Pt) :
+    detOpt op (scale a t) = detOpt op t := by
+  simp only [optimal_points_cache]
+  rw [optSpec_scale op t (scale a t) (a ^ 2) (lt_of_le_of_ne (sq_nonneg a) (Ne.symm (pow_ne_zero 2 ha)))
+    (by simp [scale]) (msd_scale a t)]
+  simp [scale]
+
+example : (3 : Rat) ≠ 0 := by norm_num
+
+/-- `_diffusion_ols` through `estimate_diffusion_constant_simple`: a numeric answer is the least-squares line through the
+    first `max_lag` MSD points, `D = slope / (2 dt)`, localisation variance `= intercept / 2`. -/
+theorem ols_estimate_def (t : List Pt) (dt : Rat) (L : Int) (e : Est) (h : olsEstimate t dt L = .ok e) :
+    2 ≤ L ∧ olsDen (ptsOf (msdCounts t (some L))) ≠ 0 ∧
+    e.value = (olsLine (ptsOf (msdCounts t (some L)))).2 * (1 / (2 * dt)) ∧
+    e.lv = (olsLine (ptsOf (msdCounts t (some L)))).1 / 2 := by
+  unfold olsEstimate at h
+  split at h
+  · cases h
+  · rename_i hL
+    unfold olsFromRows at h
+    simp only at h
+    split at h
+    · cases h
+    · rename_i hd
+      cases h
+      exact ⟨by omega, hd, rfl, rfl⟩
+
+theorem exists_ok_of_toBool {ε α} (x : Except ε α) (h : x.toBool = true) : ∃ a, x = .ok a := by
+  cases x with
+  | error e => simp [Except.toBool] at h
+  | ok a => exact ⟨a, rfl⟩
+
+example : ∃ e, olsEstimate [(0, 0), (1, 1), (2, 3), (4, 2)] 1 2 = .ok e :=
+  exists_ok_of_toBool _ (by decide +kernel)
+
+/-- **ols_auto_def.** With `max_lag=None` the reported number of lags `k` is the one `determine_optimal_points` returns,
+    and slope / intercept are the ordinary least-squares line through exactly the first `k` MSD points (normal equations,
+    minimal sum of squared residuals), `D = slope / (2 dt)`, localisation variance `= intercept / 2`. -/
+theorem ols_auto_def (op : OptPts) (t : List Pt) (dt : Rat) (e : Est) (k : Nat) (h : olsAuto op t dt = .ok (e, k)) :
+    (∃ ki, detOpt op t = .ok (k, ki)) ∧ olsEstimate t dt k = .ok e ∧
+    ∃ pts a b, pts = ptsOf (msdCounts t (some (k : Int))) ∧ (a, b) = olsLine pts ∧
+      e.value = b * (1 / (2 * dt)) ∧ e.lv = a / 2 ∧
+      resSum pts a b = 0 ∧ resLagSum pts a b = 0 ∧ ∀ a' b', sse pts a b ≤ sse pts a' b' := by
+  unfold olsAuto at h
+  cases hd : detOpt op t with
+  | error x => rw [hd] at h; cases h
+  | ok kk =>
+    rw [hd] at h
+    simp only at h
+    cases he : olsEstimate t dt (kk.1 : Int) with
+    | error x => rw [he] at h; cases h
+    | ok e' =>
+      rw [he] at h
+      simp only [Except.map, Except.ok.injEq, Prod.mk.injEq] at h
+      obtain ⟨rfl, rfl⟩ := h
+      obtain ⟨_, hden, hv, hl⟩ := ols_estimate_def t dt _ _ he
+      refine ⟨⟨kk.2, rfl⟩, he, _, _, _, rfl, rfl, hv, hl, ?_, ?_, ?_⟩
+      · exact (ols_normal_equations _ hden).1
+      · exact (ols_normal_equations _ hden).2
+      · exact ols_minimises _ hden
+
+/-- non-vacuity: a 6-point track on which the search (with the `optimal_points` that always answers 2 lags) succeeds -/
+example : ∃ r, olsAuto (fun _ _ => .ok (2, 2)) [(0, 0), (1, 1), (2, 3), (3, 2), (4, 4), (5, 3)] 1 = .ok r :=
+  exists_ok_of_toBool _ (by decide +kernel)
+
+/-- with `max_lag=None` the OLS estimate AND the number of lags it reports are invariant under translating / mirroring
+    the positions and shifting the frame indices. -/
+theorem ols_auto_invariant (op : OptPts) (t : List Pt) (dt : Rat) (c : Rat) (k : Int) :
+    olsAuto op (translate c t) dt = olsAuto op t dt ∧ olsAuto op (mirror t) dt = olsAuto op t dt ∧
+    olsAuto op (frameShift k t) dt = olsAuto op t dt := by
+  obtain ⟨h1, h2, h3⟩ := optimal_points_invariant op t c k
+  unfold olsAuto
+  simp only [h1, h2, h3, fun L => (ols_invariant t dt L c k).1, fun L => (ols_invariant t dt L c k).2.1,
+    fun L => (ols_invariant t dt L c k).2.2, and_self]
+
+/-- **ols_auto_scale.** Positions scaled by `a ≠ 0`, `max_lag=None`: the same number of lags is chosen, the value and the
+    localisation variance scale by `a²`, the squared standard error by `a⁴`; errors are unchanged. -/
+theorem ols_auto_scale (op : OptPts) (a : Rat) (ha : a ≠ 0) (t : List Pt) (dt : Rat) :
+    olsAuto op (scale a t) dt = (olsAuto op t dt).map fun r =>
+      (⟨a ^ 2 * r.1.value, a ^ 4 * r.1.var, a ^ 2 * r.1.lv, r.1.varDefined⟩, r.2) := by
+  unfold olsAuto
+  rw [optimal_points_scale op a ha t]
+  cases detOpt op t with
+  | error e => rfl
+  | ok k =>
+    simp only [ols_scale]
+    cases olsEstimate t dt (k.1 : Int) <;> rfl
+
+/-- line time scaled by `c`, `max_lag=None`: the same number of lags, value `/c`, squared standard error `/c²`. -/
+theorem ols_auto_time_scale (op : OptPts) (c : Rat) (t : List Pt) (dt : Rat) :
+    olsAuto op t (c * dt) = (olsAuto op t dt).map fun r =>
+      (⟨r.1.value / c, r.1.var / c ^ 2, r.1.lv, r.1.varDefined⟩, r.2) := by
+  unfold olsAuto
+  cases detOpt op t with
+  | error e => rfl
+  | ok k =>
+    simp only [ols_time_scale]
+    cases olsEstimate t dt (k.1 : Int) <;> rfl
+
+
+/-- a track without missing frames has the lags `1 … N − 1`: the track length `ensemble_ols` derives from the curve
+    (`lags + 1`) is its number of points. -/
+theorem contiguous_full (t : List Pt) (h : Contiguous t) (hn : 1 ≤ t.length) :
+    (msdCounts t none).length + 1 = t.length := by
+  unfold msdCounts lagsOf
+  rw [List.length_map, pySliceOpt_none, lagsAll_contiguous t h]
+  simp; omega
+
+example : Contiguous [(4, 0), (5, 1), (6, 3), (7, 2), (8, 5)] := ⟨4, by decide⟩
+
+/-- **ensemble_identical_auto.** `max_lag=None` on both sides: for a track with at least 5 points whose MSD curve has
+    `N − 1` lags (no missing frames: `contiguous_full` below) the ensemble of `k ≥ 2` identical copies goes through
+    `_determine_optimal_points_ensemble` on the ensemble curve with `lags + 1` for the track length, the single track through
+    `determine_optimal_points` with its cache — and both arrive at the same number of lags, the same diffusion constant and
+    the same localisation variance (or the same error).  For every `optimal_points` function that answers at least 2. -/
+theorem ensemble_identical_auto (op : OptPts) (hop : AtLeastTwo op) (t : List Pt) (dt : Rat) (k : Nat) (hk : 2 ≤ k)
+    (h5 : 5 ≤ t.length) (hfull : (msdCounts t none).length + 1 = t.length) :
+    (ensembleOlsAuto op (List.replicate k t) dt).map (fun r => (r.1.value, r.1.lv, r.2)) =
+      (olsAuto op t dt).map (fun r => (r.1.value, r.1.lv, r.2)) := by
+  have hne : msdCounts t none ≠ [] := by
+    intro h; rw [h] at hfull; simp at hfull; omega
+  have h4 : ¬ t.length ≤ 4 := by omega
+  have hpts : ((msdCounts t none).map fun r => (⟨r.lag, ⟨r.msd, 0, k * r.count, k⟩⟩ : EnsRow)).map
+      (fun r => ((r.lag : Rat), r.st.mean)) = ptsOf (msdCounts t none) := by
+    simp only [ptsOf, List.map_map, Function.comp_def]
+  unfold ensembleOlsAuto olsAuto
+  rw [ensemble_identical_msd t none k hk 2 (by exact_mod_cast hk) hne]
+  simp only [hpts, List.length_map, hfull]
+  unfold detOptEns
+  have hspec := optLoopEns_eq_spec op t h4 100 (max 2 (t.length / 10), max 2 (t.length / 10)) []
+  simp only at hspec
+  rw [hspec, ← optimal_points_cache]
+  cases hd : detOpt op t with
+  | error e => rfl
+  | ok kk =>
+    have h2 : 2 ≤ kk.1 := by
+      rw [optimal_points_cache] at hd
+      exact optSpec_ge_two op hop t _ _ _ _ (Nat.le_max_left _ _) hd
+    simp only [Except.map]
+    unfold olsEstimate
+    rw [if_neg (by omega)]
+    have hv := olsFromRows_value (msdCounts t (some (kk.1 : Int))) 
+      ((((msdCounts t none).map fun r => (⟨r.lag, ⟨r.msd, 0, k * r.count, k⟩⟩ : EnsRow)).take kk.1).map
+        fun r => (⟨r.lag, r.st.mean, 0⟩ : MsdRow)) t.length t.length dt 1
+      (mean (((msdCounts t none).map fun r => (⟨r.lag, ⟨r.msd, 0, k * r.count, k⟩⟩ : EnsRow)).map (·.st.ess))) true false
+      (by simp only [ptsOf, msdCounts_some_eq_take, ← List.map_take, List.map_map, Function.comp_def])
+    generalize olsFromRows (msdCounts t (some (kk.1 : Int))) t.length dt true 1 = x at hv ⊢
+    generalize olsFromRows _ t.length dt false _ = y at hv ⊢
+    cases x <;> cases y <;> simp_all [Except.map]
+
+example : AtLeastTwo optimalPointsF ∧ (2 : Nat) ≤ 3 ∧ 5 ≤ [((4 : Int), (0 : Rat)), (5, 1), (6, 3), (7, 2), (8, 5)].length ∧
+    (msdCounts [(4, 0), (5, 1), (6, 3), (7, 2), (8, 5)] none).length + 1 = [((4 : Int), (0 : Rat)), (5, 1), (6, 3), (7, 2), (8, 5)].length :=
+  ⟨optimalPointsF_atLeastTwo, by decide, by decide, by decide +kernel⟩
+
+/-- the hypothesis is needed: with a missing frame (5 points on frames 0,1,2,3,5: 5 lags, `lags + 1 = 6`) an
+    `optimal_points` that depends on the track length (here: half of it) gives 2 lags for the track but 3 for the ensemble
+    of two copies of it (kernel-checked). -/
+example :
+    (olsAuto (fun _ n => .ok (n / 2, 2)) [(0, 0), (1, 1), (2, 3), (3, 2), (5, 5)] 1).map (·.2) = .ok 2 ∧
+    (ensembleOlsAuto (fun _ n => .ok (n / 2, 2)) (List.replicate 2 [(0, 0), (1, 1), (2, 3), (3, 2), (5, 5)]) 1).map (·.2)
+      = .ok 3 := by
+  constructor <;> decide +kernel
+
+
+/-! ## GLS: one step of the fixed-point iteration -/
+
+/-- **gls_normal_equations.** One step of the GLS iteration returns the line that solves the weighted normal equations
+    `Σ W[r,c]·res_c = 0`, `Σ (r+1)·W[r,c]·res_c = 0` for the given inverse covariance matrix `W` (symmetric, as the inverse of
+    the symmetric matrix `_msd_diffusion_covariance` returns: `covEntry_symm`) — the generalised least-squares line. -/
+theorem gls_normal_equations (W : List (List Rat)) (msd : List Rat) (a b : Rat)
+    (hden : glsKappa W * glsMu W - glsLam W * glsLam W ≠ 0) (hsym : glsLamT W = glsLam W) :
+    glsRes W msd (glsUpdate W msd a b).intercept (glsUpdate W msd a b).slope = 0 ∧
+    glsResLag W msd (glsUpdate W msd a b).intercept (glsUpdate W msd a b).slope = 0 := by
+  rw [glsRes_eq, glsResLag_eq, hsym]
+  simp only [glsUpdate]
+  generalize glsKappa W = k at *
+  generalize glsLam W = l at *
+  generalize glsMu W = m at *
+  generalize glsNu W msd = n
+  generalize glsXi W msd = x
+  have e (p : Rat) : p * (1 / (k * m - l * l)) = p / (k * m - l * l) := by ring
+  rw [e, e]
+  constructor
+  · rw [sub_sub, sub_eq_zero, div_mul_eq_mul_div, div_mul_eq_mul_div, ← add_div, eq_div_iff hden]; ring
+  · rw [sub_sub, sub_eq_zero, div_mul_eq_mul_div, div_mul_eq_mul_div, ← add_div, eq_div_iff hden]; ring
+
+theorem covEntry_symm (n a b : Rat) (i j : Nat) : covEntry n a b i j = covEntry n a b j i := by
+  simp only [covEntry, Nat.min_comm j i, add_comm (j : Rat) (i : Rat), mul_comm (n - (j : Rat) + 1), eq_comm (a := j) (b := i)]
+  have e1 : n + 1 - (i : Rat) - j = n + 1 - j - i := by ring
+  have e2 : n - (i : Rat) - j + 1 = n - j - i + 1 := by ring
+  have e3 : 3 * (i : Rat) * j = 3 * j * i := by ring
+  rw [e1, e2, e3]
+
+example : glsKappa [[2, 1], [1, 3]] * glsMu [[2, 1], [1, 3]] - glsLam [[2, 1], [1, 3]] * glsLam [[2, 1], [1, 3]] ≠ 0 ∧
+    glsLamT [[2, 1], [1, 3]] = glsLam [[2, 1], [1, 3]] := by
+  constructor <;> decide +kernel
+
+
+/-! ## the dispatcher `KymoTrack.estimate_diffusion` — for EVERY `optimal_points` and EVERY `_diffusion_gls` function -/
+
+/-- **estimate_max_lag_zero.** `max_lag=0` is treated exactly like `max_lag=None` (the code tests `if max_lag`). -/
+theorem estimate_max_lag_zero (op : OptPts) (glsFn : GlsFn) (t : List Pt) (dt R : Rat) (method : String)
+    (lv vlv : Option Rat) :
+    estimateDiffusion op glsFn t dt R method (some 0) lv vlv = estimateDiffusion op glsFn t dt R method none lv vlv := by
+  unfold estimateDiffusion
+  simp
+
+/-- **estimate_dispatch_cve.** `method="cve"` is `_cve` with the kymograph's blur constant, whatever `max_lag` is. -/
+theorem estimate_dispatch_cve (op : OptPts) (glsFn : GlsFn) (t : List Pt) (dt R : Rat) (L : Option Int)
+    (lv vlv : Option Rat) :
+    estimateDiffusion op glsFn t dt R "cve" L lv vlv =
+      (cve t dt R lv vlv).map fun c => (⟨c.D, c.var, c.lv, true⟩, none) := by
+  unfold estimateDiffusion
+  simp
+
+/-- **estimate_dispatch_ols.** `method="ols"` without a localisation variance: an explicit non-zero `max_lag` gives
+    `olsEstimate` with that `max_lag`; `None` gives `olsAuto` (the number of lags of `determine_optimal_points`). -/
+theorem estimate_dispatch_ols (op : OptPts) (glsFn : GlsFn) (t : List Pt) (dt R : Rat) :
+    (∀ L : Int, L ≠ 0 → estimateDiffusion op glsFn t dt R "ols" (some L) none none =
+      (olsEstimate t dt L).map fun e => (e, some L)) ∧
+    estimateDiffusion op glsFn t dt R "ols" none none none =
+      (olsAuto op t dt).map fun r => (r.1, some (r.2 : Int)) := by
+  constructor
+  · intro L hL
+    unfold estimateDiffusion estimateSimple olsEstimate
+    simp [hL]
+  · have h1 : ("ols" : String) ≠ "cve" := by decide
+    have h2 : ("ols" : String) ≠ "gls" := by decide
+    unfold estimateDiffusion olsAuto estimateSimple olsEstimate
+    simp only [h1, h2, ne_eq, not_true_eq_false, not_false_eq_true, and_false, if_false, if_true,
+      Option.isSome_none, Bool.false_eq_true, or_self, decide_false]
+    cases detOpt op t with
+    | error e => rfl
+    | ok k =>
+      simp only [Except.map]
+      by_cases hk : (k.1 : Int) < 2
+      · simp only [hk, if_true]
+      · simp only [hk, if_false]
+        cases olsFromRows (msdCounts t (some (k.1 : Int))) t.length dt true 1 <;> rfl
+
+/-- **estimate_rejects.** The error branches, in the order the code takes them: an unknown method is a `ValueError`; a
+    localisation variance (or its variance) with an MSD-based method is a `NotImplementedError` before anything is computed;
+    `max_lag < 2` (explicit, non-zero) is a `ValueError` before GLS looks at missing frames; GLS refuses missing frames. -/
+theorem estimate_rejects (op : OptPts) (glsFn : GlsFn) (t : List Pt) (dt R : Rat) (L : Option Int) (lv vlv : Option Rat) :
+    (∀ m : String, m ≠ "cve" → m ≠ "gls" → m ≠ "ols" → estimateDiffusion op glsFn t dt R m L lv vlv = .error "ValueError") ∧
+    (∀ m : String, m = "ols" ∨ m = "gls" → lv.isSome ∨ vlv.isSome →
+      estimateDiffusion op glsFn t dt R m L lv vlv = .error "NotImplementedError") ∧
+    (∀ m : String, m = "ols" ∨ m = "gls" → ∀ l : Int, l ≠ 0 → l < 2 →
+      estimateDiffusion op glsFn t dt R m (some l) none none = .error "ValueError") ∧
+    (∀ l : Int, 2 ≤ l → hasGap t = true → estimateDiffusion op glsFn t dt R "gls" (some l) none none = .error "RuntimeError") := by
+  refine ⟨?_, ?_, ?_, ?_⟩
+  · intro m h1 h2 h3
+    unfold estimateDiffusion
+    simp [h1, h2, h3]
+  · intro m hm hl
+    unfold estimateDiffusion
+    rcases hm with rfl | rfl <;> simp [hl]
+  · intro m hm l h0 h2
+    unfold estimateDiffusion estimateSimple
+    rcases hm with rfl | rfl <;> simp [h0, h2, Except.map]
+  · intro l h2 hg
+    unfold estimateDiffusion estimateSimple
+    have : l ≠ 0 := by omega
+    have h2' : ¬ l < 2 := by omega
+    simp [this, h2', hg, Except.map]
+
+/-- non-vacuity of the branches of `estimate_rejects` (kernel-checked instances) -/
+example : hasGap [(0, 0), (2, 1), (3, 0)] = true ∧
+    estimateDiffusion optimalPointsF glsUnmodelled [(0, 0), (2, 1), (3, 0)] 1 0 "gls" (some 2) none none = .error "RuntimeError" ∧
+    estimateDiffusion optimalPointsF glsUnmodelled [(0, 0), (2, 1), (3, 0)] 1 0 "ols" (some 1) none none = .error "ValueError" ∧
+    estimateDiffusion optimalPointsF glsUnmodelled [(0, 0), (2, 1), (3, 0)] 1 0 "ols" (some 2) (some 1) none
+      = .error "NotImplementedError" ∧
+    estimateDiffusion optimalPointsF glsUnmodelled [(0, 0), (2, 1), (3, 0)] 1 0 "mse" none none none = .error "ValueError" := by
+  refine ⟨by decide, ?_, ?_, ?_, ?_⟩ <;> decide +kernel
+
+/-- **estimate_invariant.** Every method (cve, ols, gls — the latter for any `_diffusion_gls` that is a function of the MSD
+    curve and the number of points), every option combination, every error branch: translating / mirroring the positions and
+    shifting the frame indices changes nothing. -/
+theorem estimate_invariant (op : OptPts) (glsFn : GlsFn) (t : List Pt) (dt R : Rat) (method : String) (L : Option Int)
+    (lv vlv : Option Rat) (c : Rat) (k : Int) :
+    estimateDiffusion op glsFn (translate c t) dt R method L lv vlv = estimateDiffusion op glsFn t dt R method L lv vlv ∧
+    estimateDiffusion op glsFn (mirror t) dt R method L lv vlv = estimateDiffusion op glsFn t dt R method L lv vlv ∧
+    estimateDiffusion op glsFn (frameShift k t) dt R method L lv vlv = estimateDiffusion op glsFn t dt R method L lv vlv := by
+  obtain ⟨o1, o2, o3⟩ := optimal_points_invariant op t c k
+  have g1 : hasGap (translate c t) = hasGap t := hasGap_map (fun p => (p.1, p.2 + c)) id (fun _ => rfl) (fun _ _ => rfl) t
+  have g2 : hasGap (mirror t) = hasGap t := hasGap_map (fun p => (p.1, -p.2)) id (fun _ => rfl) (fun _ _ => rfl) t
+  have g3 : hasGap (frameShift k t) = hasGap t := hasGap_map (fun p => (p.1 + k, p.2)) (· + k) (fun _ => rfl) (fun a b => by omega) t
+  have l1 : (translate c t).length = t.length := by simp [translate]
+  have l2 : (mirror t).length = t.length := by simp [mirror]
+  have l3 : (frameShift k t).length = t.length := by simp [frameShift]
+  unfold estimateDiffusion estimateSimple
+  simp only [cve_translate, cve_mirror, cve_frame_shift, msd_translate, msd_mirror, msd_frame_shift, o1, o2, o3, g1, g2, g3,
+    l1, l2, l3, and_self]
+
+
+
+/-! ## GLS: the iteration -/
+
+/-- **gls_result_def.** Whatever matrix inverse `inv` and state rounding `rnd` are used: a numeric answer of the GLS
+    iteration is either the fallback (the OLS line through the first two MSD points: singular covariance matrix, or 100
+    iterations without convergence), or the (rounded) output of ONE update step `glsUpdate W msd a b` for the inverse `W` of
+    the covariance matrix of the PREVIOUS estimate `(a, b)`, and that step moved the estimate by less than the tolerance —
+    so (by `gls_normal_equations`, for symmetric `W`) the unrounded line solves the weighted normal equations. -/
+theorem gls_result_def (inv : List (List Rat) → Option (List (List Rat))) (rnd : Rat → Rat) (rows : List MsdRow)
+    (msd : List Rat) (n : Nat) : ∀ (fuel : Nat) (a b : Rat) (r : Rat × Rat × Rat),
+    glsLoop inv rnd rows msd n fuel a b = .ok r →
+    glsFallback rows n = .ok r ∨
+    ∃ a0 b0 W, inv (covMatrix msd.length (n : Rat) a0 b0) = some W ∧
+      glsKappa W * glsMu W - glsLam W * glsLam W ≠ 0 ∧
+      r = (rnd (glsUpdate W msd a0 b0).intercept, rnd (glsUpdate W msd a0 b0).slope, (glsUpdate W msd a0 b0).varSlope) ∧
+      rabs (r.1 - a0) + rabs (r.2.1 - b0) < glsTol
+  | 0, _, _, r, h => Or.inl h
+  | fuel + 1, a, b, r, h => by
+    simp only [glsLoop] at h
+    split at h
+    · exact Or.inl h
+    · rename_i W hW
+      split at h
+      · cases h
+      · rename_i hden
+        split at h
+        · rename_i hch
+          simp only [Except.ok.injEq] at h
+          subst h
+          exact Or.inr ⟨a, b, W, hW, hden, rfl, hch⟩
+        · exact gls_result_def inv rnd rows msd n fuel _ _ r h
+
+/-- non-vacuity: one converging run (kernel-checked; exact inverse, no rounding) -/
+example : (glsLoop matInv id [] [1, 2, 3] 4 100 0 1).toBool = true := by decide +kernel
+
+/-- line time scaled by `c` (OLS with an explicit `max_lag` and GLS, any `_diffusion_gls` function): value `/c`, squared
+    standard error `/c²`, localisation variance unchanged, errors unchanged. -/
+theorem estimate_simple_time_scale (glsFn : GlsFn) (c : Rat) (t : List Pt) (dt : Rat) (L : Int) (gls : Bool) :
+    estimateSimple glsFn t (c * dt) L gls =
+      (estimateSimple glsFn t dt L gls).map fun e => ⟨e.value / c, e.var / c ^ 2, e.lv, e.varDefined⟩ := by
+  unfold estimateSimple
+  split
+  · rfl
+  · cases gls with
+    | true =>
+      simp only [if_true]
+      split
+      · rfl
+      · cases glsFn (msdCounts t (some L)) t.length with
+        | error e => rfl
+        | ok r =>
+          simp only [Except.map, Except.ok.injEq, Est.mk.injEq, sqr, and_true]
+          refine ⟨by ring, by ring⟩
+    | false =>
+      have := ols_time_scale c t dt L
+      unfold olsEstimate at this
+      rename_i h2
+      simp only [h2, if_false] at this
+      simpa using this
+
+
 end Verif.C09
